@@ -630,6 +630,32 @@ func checkC12(c *Ctx, r *Report) {
 		keep = append(keep, o)
 	}
 	r.Obls = keep
+	// R4: the keep-alive the pinger uses is the one the broker was given: a CONNECT that is answered
+	// locally (sleeping/awake client, no MQTT CONNECT) must not change the handler's keep-alive
+	for _, st := range []int64{stAsleep, stAwake} {
+		for _, k2 := range []int64{K - 5, K + 20} {
+			cells := map[string]aval{"state": kint(st), "type:sn": kstr("*packets1.Connect"), "f:packets1.Connect.Duration": kint(k2), kaCell: kint(K),
+				"f:packets1.Connect.ProtocolID": kint(1)}
+			outs, _ := m.run(m.snDisp, cells)
+			key := fmt.Sprintf("%s/CONNECT(duration=%d,keepalive=%d)", stateNames[st], k2, K)
+			okc := len(outs) > 0
+			detail := ""
+			for _, o := range outs {
+				local := hasEventPrefix(o, "sn:*packets1.Connack") && !hasEventPrefix(o, "mq:*mqtt.ConnectPacket") && !hasEventPrefix(o, "store.StoreByType")
+				if local && !(o.Cells[kaCell].known && o.Cells[kaCell].i == K) {
+					okc = false
+					detail = "a CONNECT answered locally (no MQTT CONNECT reaches the broker) overwrites the handler's keep-alive with " + o.Cells[kaCell].String() + ": later sleeps are pinged (or not pinged) according to a keep-alive the broker was never given: " + strings.Join(o.Events, " ; ")
+				}
+			}
+			if okc {
+				r.ok("R4", key, pos, firstOutcome(outs))
+			} else if detail == "" {
+				r.undecided("R4", key, pos, "no outcome explored")
+			} else {
+				r.bad("R4", key, pos, detail)
+			}
+		}
+	}
 	// R2b: AfterFunc stop function and duration
 	c.checkPingerStop(r, m)
 	// R3: pinger body
@@ -813,6 +839,37 @@ func (c *Ctx) checkPingerBody(r *Report, m *gwModel, kaCell string) {
 				}
 			}
 		})
+		// every tick pings: no path from the tick case back to the select avoids the send
+		skip := ""
+		allInstrs(f, func(i ssa.Instruction) {
+			sel, ok := i.(*ssa.Select)
+			if !ok || !sel.Blocking {
+				return
+			}
+			for idx, st := range sel.States {
+				call, ok := st.Chan.(*ssa.Call)
+				if !ok || calleeName(&call.Call) != "time.After" {
+					continue
+				}
+				for _, b := range selectCaseBlocks(sel, idx) {
+					if len(b.Instrs) == 0 {
+						continue
+					}
+					if found, _ := pathExists(f, b.Instrs[0], func(j ssa.Instruction) bool { return j == ssa.Instruction(sel) },
+						func(j ssa.Instruction) bool { return j == sendInstr }); found {
+						skip = "a keep-alive tick can return to the wait without sending PINGREQ (" + c.instrPos(b.Instrs[0]) + "): the gap between two packets to the broker can then reach two keep-alive periods"
+					}
+					if b.Instrs[0] == sendInstr {
+						skip = ""
+					}
+				}
+			}
+		})
+		if skip != "" {
+			r.bad("R3", key+":every-tick", c.instrPos(sendInstr), skip)
+		} else {
+			r.ok("R3", key+":every-tick", c.instrPos(sendInstr), "every path from the tick case back to the wait passes the PINGREQ send")
+		}
 		if okDur && okCtx {
 			r.ok("R3", key, c.instrPos(sendInstr), "loop: wait keep-alive seconds -> MQTT PINGREQ; exits on its context")
 		} else {
